@@ -17,7 +17,7 @@ META = dict(
     evaluations_counter="cases",
     min={"backward_passes": 400, "grad_checks:input": 400, "grad_checks:weight": 200, "grad_checks:bias": 100,
          "frozen_checks": 80, "weight_updates": 150, "noncontiguous_upstream": 60, "quantized_inputs": 80,
-         "ste_checks": 300, "ste_checks:qbits": 80, "ste_checks:activation": 60},
+         "ste_checks": 300, "ste_checks:qbits": 80, "ste_checks:activation": 60, "inputs_without_grad": 60},
     anchors=["tensor/qtensor_func.py:QTensorLinear.forward", "tensor/qtensor_func.py:QTensorLinear.backward",
              "tensor/quantizers/symmetric.py:SymmetricQuantizer.backward", "nn/qmodule.py:QModuleMixin.qweight",
              "tensor/quantizers/affine.py:AffineQuantizer.backward", "tensor/qbits/qbits.py:QBitsDequantizer.backward",
@@ -236,7 +236,12 @@ def run(ctx):
                 elif lay < 0.4 and x.ndim == 2:
                     x = x.t().contiguous().t()
                     ctx.count("noncontiguous_inputs")
-                x = x.detach().requires_grad_(True)
+                # the first layer of a network gets data, not an activation: its input does not require a gradient while
+                # its weight and bias still do
+                x_needs_grad = bool(r.random() < 0.75) or frozen
+                x = x.detach().requires_grad_(x_needs_grad)
+                if not x_needs_grad:
+                    ctx.count("inputs_without_grad")
                 model.zero_grad(set_to_none=True)
                 qin = None
                 try:
@@ -300,7 +305,8 @@ def run(ctx):
                     Kx, Kw = W64.shape[0], max(1, int(G64.numel() // G64.shape[-1]))
                 grads = torch.autograd.grad((y * G64).sum(), [Xl, Wl] + ([b64] if b64 is not None else []), allow_unused=True)
                 gabs = torch.autograd.grad((ya * Ga).sum(), [Xa, Wa])
-                compare(ctx, "input", x.grad, grads[0], gabs[0], Kx, wd, sig0, desc)
+                if x_needs_grad:
+                    compare(ctx, "input", x.grad, grads[0], gabs[0], Kx, wd, sig0, desc)
                 if frozen:
                     ctx.count("frozen_checks")
                     wg = q.weight.grad
